@@ -438,6 +438,17 @@ def table_case(run, seed, idx, mods, big=False):
                                   rtol=1e-14, atol=0))
                 if not ok:
                     V("pk2d", "per-2D-peak table does not match the property arrays (%s labels, %d threads)" % (route, nt))
+                if nt == 1:
+                    # motor arrays as they may come from a file: omega in float32 or whole degrees (int32), dty in float64
+                    # - and the other way round; every 2D peak gets the two values of its frame, each exactly
+                    for odt, ddt in ((np.float32, np.float64), (np.int32, np.float64), (np.float64, np.float32)):
+                        om_v, dty_v = (omega * 8).astype(odt), (dty + 0.123456789).astype(ddt)
+                        p3 = tab.pk2d(om_v, dty_v, scale_factor=scale)
+                        run.count("pk2d_motor_dtype_variants")
+                        if not (np.array_equal(np.asarray(p3["omega"], np.float64), om_v.ravel()[pk[4]].astype(np.float64)) and
+                                np.array_equal(np.asarray(p3["dty"], np.float64), dty_v.ravel()[pk[4]].astype(np.float64))):
+                            V("pk2d:motor-dtypes", "pk2d(omega as %s, dty as %s): the omega / dty of the 2D peaks are not the values "
+                              "of their frames" % (np.dtype(odt).name, np.dtype(ddt).name))
                 if route == "numba" and nt == 1:
                     first_merged = merged
         numba.set_num_threads(min(4, numba.config.NUMBA_NUM_THREADS))
